@@ -381,7 +381,7 @@ static int sub_agrees(char tg, const Toks& sub, const std::vector<OD>* ex, bool 
     return res;
 }
 
-static std::string diagnose(char target, const Toks& toks, const std::vector<Node>& n, int root, std::string& witness) {
+static std::string diagnose(char target, const Toks& toks, const std::vector<Node>& n, int root, std::string& witness, char& wtarget) {
     // smallest disagreeing subtree (nodes are created children-first, so index order is a post-order)
     int T = root;
     for (int i = 0; i < int(n.size()); ++i) {
@@ -396,9 +396,10 @@ static std::string diagnose(char target, const Toks& toks, const std::vector<Nod
     }
     const Node& x = n[T];
     Toks sub(toks.begin() + x.t0, toks.begin() + x.t1);
-    witness = join(sub);
+    witness = join(sub); wtarget = target;
     Val v; try { v = ref_eval(n, T); } catch (const Unspec&) { return "C17:expr:unexplained"; }
     const char tg = target_for(target, v);
+    wtarget = tg;
     const std::vector<OD> ex = expected(tg, v);
     Real r = eval_real(tg, sub);
     const std::string thr = r.threw ? ":throws" : (!r.shape_err.empty() ? ":shape" : ":value");
@@ -468,7 +469,7 @@ static std::string diagnose(char target, const Toks& toks, const std::vector<Nod
 struct Found { std::string cs, what, witness; size_t ntok = 0; };
 static std::map<std::string, Found> g_viol;          // defect key -> shortest witness seen by this shard
 static void flush_violations() {
-    for (auto& [key, f] : g_viol) R->violation(key, f.what, "{\"case\": " + vf::jstr(f.cs) + ", \"sub\": " + vf::jstr(f.witness) + "}");
+    for (auto& [key, f] : g_viol) R->violation(key, f.what, "{\"case\": " + vf::jstr(f.cs) + ", \"seen_in\": " + vf::jstr(f.witness) + "}");
 }
 // returns: 0 executed, 1 left out (ambiguous), 2 left out (unspecified value)
 static int do_case(char target, const Toks& toks, const char* regime) {
@@ -497,13 +498,15 @@ static int do_case(char target, const Toks& toks, const char* regime) {
     }
     if (R->case_counter % 9973 == 1) R->sample_str(cs + "  =>  " + show(r.e) + (v.random ? "  (random: definedness only)" : ""));
     if (agree(r, ex, v.random)) return 0;
-    std::string witness;
-    std::string key = diagnose(target, toks, P.n, root, witness);
+    std::string witness; char wtarget = target;
+    std::string key = diagnose(target, toks, P.n, root, witness, wtarget);
     std::string what = "UDQ DEFINE " + std::string(1, target) + "UX " + join(toks) + " : real = " + (r.threw ? "throws (" + r.what.substr(0, 160) + ")" : !r.shape_err.empty() ? r.shape_err : show(r.e))
         + ", statement = " + show(ex) + "; smallest disagreeing sub-expression: " + witness;
     R->count("viol:" + key);
     auto& best = g_viol[key];
-    if (best.cs.empty() || toks.size() < best.ntok) best = {cs, what, witness, toks.size()};
+    // the stand-alone sub-expression is itself a (smaller) reproducer
+    const std::string wcs = std::string(1, wtarget) + " : " + witness;
+    if (best.cs.empty() || wcs.size() < best.cs.size() || (wcs.size() == best.cs.size() && wcs < best.cs)) best = {wcs, what, cs, toks.size()};
     return 0;
 }
 
